@@ -3221,7 +3221,7 @@ fn everything_the_router_hands_to_a_link_is_encodable_by_both_protocols() {
     if fail.is_none() && n < cases * 4 {
         fail = Some(format!("input=[all scenarios] detail=[only {} notifications were produced over {} scenarios: the harness is not exercising the router]", n, cases));
     }
-    report(name, "C20", "publisher QoS 0/1/2 x 3 kinds of MQTT 5 publish properties x retain x granted QoS 0/1/2, with a late subscriber (retained replay), an unsolicited ack (router DISCONNECT) and a ping; every notification taken from an outgoing buffer is written by V4::write and V5::write", cases, fail);
+    report(name, "C20", "publisher QoS 0/1/2 x 3 kinds of MQTT 5 publish properties x retain x granted QoS 0/1/2, with a late subscriber (retained replay), an unsolicited ack (router DISCONNECT) and a ping; every notification taken from an outgoing buffer is written by V4::write and V5::write; the forward is read back from both kinds of link: same topic and payload, no properties towards 3.1.1, the properties of the publisher towards MQTT 5", cases, fail);
 }
 
 // ---------------------------------------------------------------------------------------------
